@@ -390,10 +390,16 @@ def r3_evaluation_dispatch(ctx: Ctx) -> None:
     # operands
     for test, body in arms:
         t = unparse(test)
+        from ..match import canon as _cn3
+
+        t = _cn3(ev.node, test)
         if t == "current.token.type == TokenType.NUMBER":
-            ctx.check(len(body) == 1 and unparse(body[0]) == "values_stack.append(eval_number(current.token.value))", "eval_expression:number", "literals are pushed through eval_number")
+            pushes = [_cn3(ev.node, c) for s_ in body for c in calls_in(s_) if call_name(c) == "values_stack.append"]
+            ctx.check(pushes == ["values_stack.append(eval_number(current.token.value))"], "eval_expression:number", "literals are pushed through eval_number")
         if t == "current.token.type == TokenType.IDENTIFIER":
-            ok = any(unparse(s) == "resolved_value = resolver.current_scope.value_for(current.token.value)" for s in body)
+            # some call in the arm is the scope-chain lookup of the token's text (whatever local holds the text or the result)
+            looks = [_cn3(ev.node, c) for s_ in body for c in calls_in(s_) if (call_name(c) or "").endswith(".value_for")]
+            ok = looks == ["resolver.current_scope.value_for(current.token.value)"]
             ctx.check(ok, "eval_expression:identifier", "identifiers are looked up through the current scope chain")
     ctx.floor("eval_arms", 4)
 
